@@ -125,8 +125,11 @@ func MavenDomain(r *rand.Rand) string {
 		q := Pick(r, append(append([]string{}, MavenKnownQuals...), MavenUnknownQuals...)...)
 		s += Pick(r, "-", "-", "") + q
 		if r.Intn(2) == 0 {
-			s += Pick(r, "-", "") + Pick(r, "1", "2", "3", "10")
+			s += Pick(r, "-", "", ".") + Pick(r, "1", "2", "3", "10")
 		}
+	case x == 9:
+		// A build number straight after the numeric prefix: 2.1-10.
+		s += "-" + Pick(r, "1", "2", "3", "10")
 	case x == 5:
 		s += "-" + Pick(r, MavenReleaseQuals...)
 		return s
@@ -399,7 +402,7 @@ func PoolWithVariants(r *rand.Rand, sys semver.System, g func(*rand.Rand) string
 	return out
 }
 
-var mavenDomainRe = regexp.MustCompile(`^[0-9]+(\.[0-9]+){0,4}(-?([A-Za-z]+)(-?[0-9]+)?)?(-SNAPSHOT)?$`)
+var mavenDomainRe = regexp.MustCompile(`^[0-9]+(\.[0-9]+){0,4}(-?([A-Za-z]+)([-.]?[0-9]+)?|-()([0-9]+))?(-SNAPSHOT)?$`)
 var mavenReleaseAloneRe = regexp.MustCompile(`(?i)^[0-9]+(\.[0-9]+){0,4}-(ga|final|release)$`)
 
 // MavenInDomain reports whether s has the Maven-Central shape of the
@@ -418,7 +421,7 @@ func MavenInDomain(s string) bool {
 	}
 	// A zero after the qualifier (beta0, rc-0) is a zero-equivalent token in
 	// the region where Maven 3.8.7 changed the rules the library follows.
-	if m[4] != "" && strings.Trim(m[4], "-0") == "" {
+	if m[4] != "" && strings.Trim(m[4], "-.0") == "" {
 		return false
 	}
 	return true
